@@ -38,10 +38,18 @@ def gen_project(seed: int) -> T.Dict[str, str]:
         L.append(f"lib{i} = {kind}('l{i}', 'lib{i}.c', gen_h, include_directories: inc, link_with: [{', '.join(deps)}], "
                  f"c_args: {args!r}, install: {str(r.random() < 0.6).lower()})")
         libs.append(f'lib{i}')
-        if r.random() < 0.5:
-            L.append(f"pkg.generate(lib{i}, name: 'l{i}', description: 'lib {i}', requires: [], "
-                     f"variables: {{'k{i}': 'v', 'a{i}': 'b'}}, extra_cflags: ['-DX{i}'])")
-    L.append("dep_all = declare_dependency(link_with: [%s], include_directories: inc, compile_args: ['-DDEP=1'], "
+        if r.random() < 0.6:
+            # several version constraints on the same required package, private requirements, several variables
+            L.append(f"pkg.generate(lib{i}, name: 'l{i}', description: 'lib {i}', "
+                     f"requires: ['foo{i} >=1.{i}', 'foo{i} <3.0', 'foo{i} !=2.5', 'bar >2'], "
+                     f"requires_private: ['priv{i} >=0.1', 'priv{i} <9', 'zed'], libraries: ['-lm', '-ldl'], "
+                     f"variables: {{'k{i}': 'v', 'a{i}': 'b', 'z{i}': 'c'}}, uninstalled_variables: {{'u': '1', 'b': '2'}}, "
+                     f"extra_cflags: ['-DX{i}', '-DY{i}'], subdirs: ['s{i}', 'a{i}'])")
+    # found external dependencies kept in variables: cached in coredata and re-used by reconfigure
+    L.append("thr = dependency('threads')")
+    L.append("thr2 = thr")
+    L.append("dl = dependency('dl', required: false)")
+    L.append("dep_all = declare_dependency(dependencies: [thr], link_with: [%s], include_directories: inc, compile_args: ['-DDEP=1'], "
              "variables: {'z': '1', 'a': '2', 'm': '3'})" % ', '.join(r.sample(libs, min(3, len(libs)))))
     exes = []
     for i in range(nexe):
